@@ -564,6 +564,7 @@ def patch_instance(mod, tty):
     mod._rlock_type = HThreadLock
     mod.Array = HArray
     import_state(mod)
+    _rebind_aliases(mod)
     mod._tty_fd = world.TTY_FD
     mod.os = world._OsProxy(tty)
     mod.termios = world._TermiosProxy(tty)
@@ -571,6 +572,33 @@ def patch_instance(mod, tty):
     mod.select = tty.select
     mod.monotonic = tty.monotonic
     mod._get_terminal_size = lambda *a, **k: tty.shutil_terminal_size()     # shutil's answer (stdout / COLUMNS)
+
+
+_ALIASES = {}       # utils instance -> [(module, name, which global of the instance it aliased at import)]
+
+
+def _rebind_aliases(mod):
+    """Other library modules may have imported the lock / cache objects BY NAME (`from ..utils import
+    _tty_lock`): such a name is bound to the import-time object for good.  Point it at this execution's
+    import-state harness object, so that it is a scheduled lock and - as in reality - equals the
+    module's lock until `_process_start_wrapper` rebinds `utils._tty_lock` and leaves the alias stale."""
+    al = _ALIASES.get(mod)
+    if al is None:
+        al = []
+        saved = _SAVED.get(mod, {})
+        for which in ("_tty_lock", "_cell_size_lock", "_cell_size_cache"):
+            orig = saved.get(which, _MISSING)
+            if orig is _MISSING:
+                continue
+            for mname, m in list(sys.modules.items()):
+                if m is None or m is mod or not mname.startswith("term_image") or "_utils_proc" in mname:
+                    continue
+                for k, v in list(vars(m).items()):
+                    if v is orig:
+                        al.append((m, k, which, orig))
+        _ALIASES[mod] = al
+    for m, k, which, orig in al:
+        setattr(m, k, getattr(mod, which))
 
 
 def import_state(mod):
@@ -588,6 +616,8 @@ def import_state(mod):
 def restore_instances():
     for mod, saved in list(_SAVED.items()):
         restore_pristine(mod)
+        for m, k, which, orig in _ALIASES.pop(mod, ()):
+            setattr(m, k, orig)
         for g, v in saved.items():
             if g == "start_wrapped":
                 tgt, key = mod._process_start_wrapper, "__wrapped__"
